@@ -36,7 +36,7 @@ func (o StoreOp) String() string {
 			p = append(p, fmt.Sprintf("%q:v%d", k, o.Vals[i%len(o.Vals)]))
 		}
 		return "Merge{" + strings.Join(p, ",") + "}"
-	case "get", "has", "delete", "getint", "getstring", "getintor", "getbool", "getfloat":
+	case "get", "has", "delete", "getint", "getstring", "getintor", "getbool", "getfloat", "getsliceor", "getmapor", "bind":
 		return fmt.Sprintf("%s(%q)", o.Op, o.Key)
 	}
 	return o.Op
